@@ -12,7 +12,7 @@ import numpy as np
 from harness import common as C
 
 HEADER = """From Coq Require Import List NArith ZArith QArith Bool. Import ListNotations.
-From TLV Require Import Base.Tensor Model.Structure Model.StructureHooi Model.StructureWeights Corr.C08.
+From TLV Require Import Base.Tensor Model.Structure Model.StructureHooi Model.StructureWeights Model.StructureRanks Corr.C08.
 Local Open Scope nat_scope."""
 
 ROUNDINGS = {"round": "RRound", "floor": "RFloor", "ceil": "RCeil"}
@@ -626,6 +626,106 @@ def extract_weights_prog(repo, path, func):
     return ("[" + "; ".join(lits) + "]") if lits else "(@nil wstmt)", wvars, lits
 
 
+
+# ----------------------------------------------------------------------------- initialize_cp: paths to `return kt` (Model/StructureWeights.v istmt)
+def extract_init_cp_paths(repo, path="tensorly/decomposition/_cp.py", func="initialize_cp", var="kt"):
+    """every control-flow path of initialize_cp from the entry to a `return kt`, as the list of its statements assigning kt
+    (IFresh / IUser / INormalize guarded / IFactors); fail closed: any other statement touching kt is Untranslatable"""
+    tree = ast.parse(open(os.path.join(repo, path)).read())
+    fn = next((n for n in tree.body if isinstance(n, ast.FunctionDef) and n.name == func), None)
+    if fn is None:
+        raise Untranslatable(f"{func} not found")
+
+    def mentions_store(node):
+        """does the statement (re)bind kt or write into it?"""
+        for n in ast.walk(node):
+            if isinstance(n, ast.Name) and n.id == var and isinstance(n.ctx, (ast.Store, ast.Del)):
+                return True
+            if isinstance(n, ast.Attribute) and isinstance(n.value, ast.Name) and n.value.id == var and isinstance(n.ctx, (ast.Store, ast.Del)):
+                return True
+            if isinstance(n, ast.Subscript) and isinstance(n.value, ast.Name) and n.value.id == var and isinstance(n.ctx, (ast.Store, ast.Del)):
+                return True
+        return False
+
+    def classify(st, guarded):
+        if not mentions_store(st):
+            return None
+        if isinstance(st, ast.Assign) and len(st.targets) == 1:
+            tg, val = st.targets[0], st.value
+            if isinstance(tg, ast.Name) and tg.id == var and isinstance(val, ast.Call):
+                cn = _call_name(val)
+                if cn == "random_cp":
+                    kws = {k.arg: k.value for k in val.keywords}
+                    nz = kws.get("normalise_factors")
+                    if isinstance(nz, ast.Constant) and nz.value is False:
+                        return "IFresh"
+                    raise Untranslatable(f"line {st.lineno}: random_cp without normalise_factors=False")
+                if cn == "CPTensor" and len(val.args) == 1:
+                    a = val.args[0]
+                    if isinstance(a, ast.Tuple) and len(a.elts) == 2 and isinstance(a.elts[0], ast.Constant) and a.elts[0].value is None:
+                        return "IFresh"
+                    if isinstance(a, ast.Name) and a.id != var:
+                        return "IUser"
+                if cn == "cp_normalize" and len(val.args) == 1 and isinstance(val.args[0], ast.Name) and val.args[0].id == var:
+                    return f"(INormalize {C.boolc(guarded)})"
+            if isinstance(tg, ast.Attribute) and isinstance(tg.value, ast.Name) and tg.value.id == var and tg.attr == "factors":
+                return "IFactors"
+        raise Untranslatable(f"line {st.lineno}: `{var}` is assigned in a form the translator does not know")
+
+    paths = []
+
+    def walk(stmts, prefix, guarded):
+        """returns the list of prefixes that fall through the end of stmts; completed paths go to `paths`"""
+        live = [prefix]
+        for st in stmts:
+            if not live:
+                break
+            if isinstance(st, ast.Return):
+                if not (isinstance(st.value, ast.Name) and st.value.id == var):
+                    raise Untranslatable(f"line {st.lineno}: returns something else than `{var}`")
+                paths.extend(live)
+                return []
+            if isinstance(st, ast.Raise):
+                return []
+            if isinstance(st, ast.If):
+                g = guarded or _nf_guarded((st.test,))
+                nxt = []
+                for pre in live:
+                    nxt += walk(st.body, pre, g)
+                    nxt += walk(st.orelse, pre, guarded)
+                live = nxt
+                continue
+            if isinstance(st, ast.Try):
+                for h in st.handlers:
+                    if any(mentions_store(x) for x in h.body) or not any(isinstance(x, ast.Raise) for x in h.body):
+                        raise Untranslatable(f"line {h.lineno}: an exception handler that continues or assigns `{var}`")
+                nxt = []
+                for pre in live:
+                    nxt += walk(st.body + st.orelse + st.finalbody, pre, guarded)
+                live = nxt
+                continue
+            if isinstance(st, (ast.For, ast.While, ast.With)):
+                if mentions_store(st):
+                    raise Untranslatable(f"line {st.lineno}: `{var}` is assigned inside a loop / with block")
+                continue
+            c = classify(st, guarded)
+            if c is not None:
+                live = [pre + [c] for pre in live]
+        return live
+
+    rest = walk(fn.body, [], False)
+    if rest:
+        raise Untranslatable(f"{func}: a path falls off the end of the function without `return {var}`")
+    if not paths:
+        raise Untranslatable(f"{func}: no path returns `{var}`")
+    uniq = []
+    for p_ in paths:
+        if p_ not in uniq:
+            uniq.append(p_)
+    lit = "[" + "; ".join(("[" + "; ".join(p_) + "]") if p_ else "(@nil istmt)" for p_ in uniq) + "]"
+    return lit, uniq
+
+
 # ----------------------------------------------------------------------------- observing the implementation
 def shp(a):
     return tuple(int(x) for x in np.shape(a))
@@ -1020,7 +1120,91 @@ ENTRY = {"VCp": "tensorly.cp_tensor.validate_cp_rank", "VTucker": "tensorly.tuck
          "DTtm": "tensorly.decomposition.tensor_train_matrix", "DTr": "tensorly.decomposition.tensor_ring",
          "DTucker": "tensorly.decomposition.tucker", "DCp": "tensorly.decomposition.parafac",
          "DParafac2": "tensorly.decomposition.parafac2", "DTrAls": "tensorly.decomposition.tensor_ring_als",
-         "DCmtf": "tensorly.decomposition.coupled_matrix_tensor_3d_factorization"}
+         "DCmtf": "tensorly.decomposition.coupled_matrix_tensor_3d_factorization",
+         "VTuckerFm": "tensorly.tucker_tensor.validate_tucker_rank"}
+
+
+
+# ----------------------------------------------------------------------------- validate_tucker_rank(fixed_modes=...)  (Model/StructureRanks.v)
+def tucker_fm_root(shape, fm, q):
+    """the root validate_tucker_rank asks brentq for when fixed_modes is given (the equation AS CODED: the fixed factors enter as size^2 * x),
+    by exact bisection.  Returns (status, c, free sizes); status 'reject' when a pop fails or the bracket [0, max(q, 1)] has no sign change"""
+    sh, fixed = list(shape), []
+    for m in sorted(fm, reverse=True):
+        if m >= len(sh):
+            return "reject", Fraction(0), []
+        fixed.append(sh.pop(m))
+    P = Fraction(prod(shape)); n1 = len(shape) - len(fm)
+    S = Fraction(sum(x * x for x in sh) + sum(x * x for x in fixed))
+    f = lambda x: P * x ** n1 + S * x - q * P
+    lo, hi = Fraction(0), max(q, Fraction(1))
+    if f(lo) * f(hi) > 0:
+        return "reject", Fraction(0), sh
+    if f(lo) == 0:
+        return "ok", lo, sh
+    for _ in range(90):
+        mid = (lo + hi) / 2
+        if f(mid) <= 0:
+            lo = mid
+        else:
+            hi = mid
+    return "ok", lo, sh
+
+
+def vfm_cases(tier, rng):
+    """shape x rank spec x rounding x fixed_modes (None, [], one, several in any order, all, duplicated, out of range)"""
+    quick = tier == "quick"
+    shapes = list(grid_shapes([1, 2], [1, 2, 3, 5])) + rng.sample(list(grid_shapes([3], [1, 2, 3, 5, 8])), 14 if quick else 60) + \
+        [capped_shape(rng, o, [1, 2, 3, 4, 6, 9, 12], 4000) for o in (4, 4, 5, 6) for _ in range(3 if quick else 12)]
+    for s in shapes:
+        n = len(s)
+        fms = [None, [], [0], [n - 1], list(range(n)), list(range(n))[::-1]]
+        for _ in range(2 if quick else 5):
+            k = rng.randrange(1, n + 1)
+            fm = rng.sample(range(n), k)
+            fms.append(fm)
+        if n >= 2:
+            fms.append([0, 0]); fms.append([n - 1, 0, n - 1])
+        fms.append([n]); fms.append([0, n + 1])
+        for fm in fms:
+            specs = [("same", "round"), (0.5, rng.choice(list(ROUNDINGS))), (rng.choice([0.25, 0.75, 1.5, 2.0]), rng.choice(list(ROUNDINGS))), (2, "round"),
+                     (tuple(rng.choice([1, 2, 4]) for _ in range(n)), "round")]
+            if quick:
+                specs = specs[:1] + rng.sample(specs[1:], 2)
+            for spec, rd in specs:
+                yield dict(kind="VTuckerFm", shape=s, spec=spec, kw=dict(rounding=rd, fixed_modes=fm))
+
+
+def run_vfm_case(case):
+    from tensorly import tucker_tensor
+    spec = case["spec"]
+    spec = list(spec) if isinstance(spec, tuple) else spec
+    fm = case["kw"]["fixed_modes"]
+    r = tucker_tensor.validate_tucker_rank(tuple(case["shape"]), spec, rounding=case["kw"]["rounding"], fixed_modes=None if fm is None else list(fm))
+    return [int(x) for x in r]
+
+
+def pred_vfm(case, rank):
+    """C08_validate_tucker_rank_fixed_modes: for distinct valid fixed modes an accepted int / fractional rank has one entry per mode, a fixed mode keeps the
+    size of the tensor, every entry of a fractional rank is >= 1"""
+    s, spec, fm = case["shape"], case["spec"], case["kw"]["fixed_modes"]
+    if isinstance(spec, tuple) or fm is None or len(set(fm)) != len(fm) or any(m >= len(s) for m in fm):
+        return None
+    if len(rank) != len(s):
+        return f"{len(s)} modes but {len(rank)} ranks", "C08_validate_tucker_rank_fixed_modes"
+    for m in fm:
+        if rank[m] != s[m]:
+            return f"fixed mode {m}: rank {rank[m]}, size {s[m]}", "C08_validate_tucker_rank_fixed_modes"
+    if not isinstance(spec, int) and any(r < 1 for r in rank):
+        return f"rank {rank} has an entry below 1", "C08_validate_tucker_rank_fixed_modes"
+    return None
+
+
+def vfm_lit(cid, case, c, st, rank):
+    fm = case["kw"]["fixed_modes"]
+    fl = "None" if fm is None else f"(Some {C.nat_list(list(fm))})"
+    return (f"({cid}%N, (VTuckerFm {C.nat_list(list(case['shape']))} {spec_lit(case['spec'])} {ROUNDINGS[case['kw']['rounding']]} {fl} {C.q(c)}), "
+            f"{shapes_lit(st, [rank] if st == 'ok' else None)})")
 
 
 # ----------------------------------------------------------------------------- property predicates (Python transcriptions)
@@ -1251,6 +1435,10 @@ def tucker_cases(tier, rng):
             for nit in (1, 3):
                 yield dict(entry=entry, shape=s, modes=None, rank=[min(2, d) for d in s], init="svd", tol=rng.choice([0, 1e-5]), n_iter_max=nit,
                            seed=rng.randrange(10 ** 6), svd="truncated_svd", fixed=None, mask=True)
+        # missing values on a mode subset / permuted modes, random initialisation, both exits (the imputed tensor is observed through the projection's input)
+        for modes in ([n - 1, 0], [0]):
+            yield dict(entry="partial_tucker", shape=s, modes=modes, rank=[min(2, s[m]) for m in modes], init=rng.choice(["svd", "random"]),
+                       tol=rng.choice([0, 1e-5, 1e10]), n_iter_max=rng.choice([1, 2, 4]), seed=rng.randrange(10 ** 6), svd="truncated_svd", fixed=None, mask=True)
 
 
 
@@ -1265,6 +1453,7 @@ class HooiSpy:
         self.M, self.o_svd, self.o_mmd = M, M.svd_interface, M.multi_mode_dot
         self.log, self.outs = [], []
         self.pending, self.n_init = None, 0
+        self.proj_in = self.proj_rec = None
         me = self
 
         def svd(*a, **kw):
@@ -1284,7 +1473,10 @@ class HooiSpy:
                 c = 2
             else:
                 c = 10 + int(skip); me.pending = int(skip)
-            me.log.append(c); me.outs.append(np.array(r, copy=True) if c == 2 else None)
+            me.log.append(c); me.outs.append(np.array(r, copy=True) if c in (2, 3) else None)
+            if c == 2:
+                me.proj_in = np.array(tensor, copy=True)                 # the tensor that was projected (with a mask: the imputed tensor)
+                me.proj_rec = next((o for cc, o in zip(reversed(me.log[:-1]), reversed(me.outs[:-1])) if cc == 3), None)
             return r
         M.svd_interface, M.multi_mode_dot = svd, mmd
         return self
@@ -1308,6 +1500,23 @@ class HooiSpy:
             ks = [k for k, c in enumerate(log) if c == 100 + i]
             f2 = f2 and bool(ks) and np.array_equal(outs[ks[-1]], f)
         return bool(f1), bool(f2)
+
+
+def pred_imputed(tc, spy, X, mask):
+    """with a mask (0 / 1 entries) and at least one sweep: the tensor that the LAST full projection projected -- the core is its output
+    (flag f1) -- is the data on the observed entries and the last reconstruction multi_mode_dot(core, factors) on the missing ones, bit for
+    bit (x * 1 + r * 0 = x and x * 0 + r * 1 = r exactly for finite values); this is the `X'` of C08_hooi_result_canonical under a mask"""
+    if mask is None or tc["n_iter_max"] == 0 or spy.proj_in is None:
+        return None
+    if spy.proj_rec is None:
+        return "a masked sweep projected a tensor although no reconstruction was computed before it", "C08_hooi_imputed_tensor"
+    if not np.all(np.isfinite(spy.proj_rec)):
+        return None
+    want = np.where(mask != 0, X, spy.proj_rec)
+    if spy.proj_in.shape != want.shape or not np.array_equal(spy.proj_in, want):
+        bad = int(np.sum(spy.proj_in != want)) if spy.proj_in.shape == want.shape else -1
+        return (f"the tensor projected last differs from `data on the observed entries, last reconstruction on the missing ones` in {bad} entries", "C08_hooi_imputed_tensor")
+    return None
 
 
 def pred_hooi(tc, f1, f2):
@@ -1368,6 +1577,8 @@ def run_tucker_case(tc, spy=None):
         fixed_in = [np.array(f, copy=True) for f in fs]
     if tc["mask"]:
         kw["mask"] = (r.random_sample(s) > 0.15).astype(float)
+        if spy is not None:
+            spy.mask_used = np.array(kw["mask"], copy=True)
     if tc["entry"] == "tucker":
         if tc["fixed"] is not None:
             kw["fixed_factors"] = list(tc["fixed"])
@@ -2113,6 +2324,37 @@ def _run(chk, rng):
                 msg, pred = r
                 chk.finding(ENTRY[kind], dict(kind=kind, shape=list(s), spec=(list(spec) if isinstance(spec, tuple) else spec), kw=kw, seed=case["seed"]), msg, pred,
                             observed=[list(x) for x in shapes])
+    # ---- validate_tucker_rank with fixed_modes (Model/StructureRanks.v)
+    for case in vfm_cases(tier, rng):
+        s, spec, kw = case["shape"], case["spec"], case["kw"]
+        q_ = frac_of(spec)
+        c = Fraction(0)
+        if q_ is not None:
+            if kw["fixed_modes"] is None:
+                c, skip = oracle_for(dict(case, kind="VTucker"))
+            else:
+                stat_, c, free_ = tucker_fm_root(tuple(s), tuple(kw["fixed_modes"]), q_)
+                skip = stat_ == "ok" and any(near_boundary(d * c, kw["rounding"]) for d in free_)
+            if skip:
+                skipped += 1
+                continue
+        st, v = C.call_impl(run_vfm_case, case, timeout=60)
+        if st != "ok" and str(v) == "timeout":
+            timeouts += 1
+            continue
+        cid = len(cases)
+        cases.append(vfm_lit(cid, case, c, st, v))
+        meta.append(case)
+        chk.count(key=("VTuckerFm", s, spec if not isinstance(spec, float) else ("frac", spec), kw["rounding"], None if kw["fixed_modes"] is None else tuple(kw["fixed_modes"])),
+                  nontrivial=prod(s) > 1)
+        chk.hist("entry_point", "VTuckerFm"); chk.hist("outcome", st)
+        chk.hist("fixed_modes", "None" if kw["fixed_modes"] is None else "duplicates" if len(set(kw["fixed_modes"])) != len(kw["fixed_modes"]) else
+                 "out of range" if any(m >= len(s) for m in kw["fixed_modes"]) else "all" if len(kw["fixed_modes"]) == len(s) else "subset")
+        if st == "ok":
+            chk.cov["evaluations"] += 1
+            r = pred_vfm(case, v)
+            if r:
+                chk.finding(ENTRY["VTuckerFm"], dict(kind="VTuckerFm", shape=list(s), spec=(list(spec) if isinstance(spec, tuple) else spec), kw=kw, seed=0), r[0], r[1], observed=v)
     # ---- normalisation contract: every exit (cap incl. 0 and 1, convergence, callback stop, all modes fixed)
     n_norm = 0
     for nc in corpus_norm_cases() + list(norm_cases(tier, rng)):
@@ -2178,6 +2420,9 @@ def _run(chk, rng):
             meta.append(dict(kind="DHooi", shape=tc["shape"], spec=tc["rank"], kw={k: v for k, v in tc.items() if k not in ("shape", "rank")}))
             chk.hist("hooi_trace", tc["entry"] + (":fixed" if tc["fixed"] is not None else "") + (":mask" if tc["mask"] else ""))
             r = pred_hooi(tc, hf1, hf2)
+            if r is None and tc["mask"]:
+                r = pred_imputed(tc, hspy, X, getattr(hspy, "mask_used", None))
+                chk.hist("hooi_imputed_tensor", "checked" if hspy.proj_rec is not None else "no sweep")
             if r:
                 chk.finding("tensorly.decomposition." + tc["entry"], dict({k: (list(v) if isinstance(v, tuple) else v) for k, v in tc.items()}, tucker_case=True, hooi_pred=True), r[0], r[1])
         cx_ = str(tc.get("dtype", "")).startswith("complex")
@@ -2250,6 +2495,16 @@ def _run(chk, rng):
             chk.count(key=("weights_program", fn_, wl))
         except Untranslatable as e:
             chk.broken.append({"what": f"tie corr:C08 (source of {fn_} -> weights program) broken: an assignment to the weights could not be translated", "detail": str(e)})
+    # ---- the paths of initialize_cp (the initial CP weights) translated from the source
+    try:
+        ilit, ipaths = extract_init_cp_paths(C.REPO)
+        chk.cov["initialize_cp_paths_from_source"] = ipaths
+        cid = len(cases)
+        cases.append(f"({cid}%N, (DIpaths {ilit}), {QOK})")
+        meta.append(dict(kind="Ipaths", shape=(), spec="initialize_cp", kw=dict(fn="initialize_cp", program=ilit)))
+        chk.count(key=("initialize_cp_paths", ilit))
+    except Untranslatable as e:
+        chk.broken.append({"what": "tie corr:C08 (source of initialize_cp -> paths) broken: a statement assigning the CP tensor could not be translated", "detail": str(e)})
     # ---- the loop of partial_tucker translated from the source
     try:
         plit, pbody, pinit = extract_hooi_prog(C.REPO)
@@ -2305,6 +2560,7 @@ def _run(chk, rng):
                 "corr:C08 (loop skeleton read off the source does not satisfy desc_ok: some exit returns un-normalised factors)" if m["kind"] == "Desc" else
                 "corr:C08 (Model/StructureHooi.v p2o_run vs the _compute_projections calls of parafac2: number of calls / which call's output is returned)" if m["kind"] == "P2Calls" else
                 "corr:C08 (the assignments to the CP weights translated from the source do not satisfy wprog_ok: a cp_normalize outside `if normalize_factors`)" if m["kind"] == "Wprog" else
+                "corr:C08 (a path of initialize_cp translated from the source does not satisfy ipath_ones: with normalize_factors=False it can return weights that are not all ones)" if m["kind"] == "Ipaths" else
                 "corr:C08 (the loop of partial_tucker translated from the source does not satisfy prog_ok: some exit returns a core that is not the projection onto the returned factors)" if m["kind"] == "Hprog" else
                 "corr:C08 (Model/StructureQ.v: orthonormality / core = projection / cp_normalize evaluated exactly on the outputs)" if m["kind"] == "Q" else
                 "corr:C08 (Model/Structure.v vs rank validators / decomposition shape flow)")
@@ -2369,6 +2625,8 @@ def replay(payload):
         r = pred_tucker_case(tc, *res)
         if r is None and hp and res[0] == "ok":
             r = pred_hooi(tc, *hooi_case_lit(0, tc, hspy, res[1])[1])
+            if r is None and tc["mask"]:
+                r = pred_imputed(tc, hspy, res[2], getattr(hspy, "mask_used", None))
     elif "zero_col" in inp and "weights" in inp:
         cc = dict(inp); cc["shape"] = tuple(cc["shape"]); cc["zero_col"] = tuple(cc["zero_col"]) if cc["zero_col"] is not None else None
         cc["tiny_col"] = tuple(cc["tiny_col"]) if cc.get("tiny_col") is not None else None
@@ -2390,6 +2648,11 @@ def replay(payload):
         case = dict(kind=inp["kind"], shape=tuple(tuple(x) if isinstance(x, list) else x for x in inp["shape"]),
                     spec=tuple(spec) if isinstance(spec, list) else spec, kw=inp["kw"], seed=inp["seed"])
         pyspec = list(spec) if isinstance(spec, (list, tuple)) else spec
+        if case["kind"] == "VTuckerFm":
+            st, v = C.call_impl(run_vfm_case, case, timeout=60)
+            r = pred_vfm(case, v) if st == "ok" else None
+            print("replay:", inp, "->", r[0] if r else "holds")
+            return 1 if r else 0
         sspy = SvdSpy("tensorly.decomposition._tr_svd" if case["kind"] == "DTr" else "tensorly.decomposition._tt") if inp.get("svd_calls") else None
         st, v = C.call_impl(run_decomp, case["kind"], case["shape"], pyspec, case["seed"], timeout=120, _spy=sspy, **case["kw"])
         if st != "ok":
